@@ -28,6 +28,13 @@ Input classes generated on purpose (each is reached many times per quick run):
     percent, so a library that rounds the window origin and the sub-pixel shift differently matches none).
   * probe modes installed through the public setter in arbitrary order (the incoherent sum is
     permutation invariant; the reference keeps them strongest-first).
+  * large scans (separate stratum, 2 per quick worker): J = g0 x g1 just above 1000 (thorough: also just above
+    2000) scan points, i.e. more than one of the library's 1000-position chunks in _set_patch_indices; 6..8 px
+    ROI, one slice, one mode, steps that are multiples of 1/8 px; only the truth loss (full scan + batches).
+  * "reconstruct_history" cases end with an interference step: an unrelated tiny reconstruction with drawn
+    non-default object / probe / dataset constraints (through reconstruct(reset=True, constraints=...) and/or
+    the models' public constraints setters) runs in the same process, then the SAME problem is built from
+    scratch once more and its truth loss must meet the same bound (no state may leak between instances).
   * "reconstruct_history" cases: after the direct evaluation, a fresh Ptychography object at the ground
     truth goes through 2-3 public reconstruct() calls (1-2 iterations each, independently drawn loss
     types, reset=False continuation or reset=True) with nothing to optimise (no optimiser in descan mode
@@ -169,6 +176,89 @@ def _axis(draw, g):
     return draw(st.sampled_from([2.0, 3.0, 4.0, 5.0])), samp, kind
 
 
+def _subset(draw, options, always=()):
+    out = {k: v for k, v in always}
+    for k, v in options:
+        if draw(st.booleans()):
+            out[k] = v
+    return out
+
+
+@st.composite
+def _interference(draw):
+    """An unrelated tiny reconstruction that runs between two evaluations of the same problem: drawn
+    NON-default constraints for the object / probe / dataset models, given through reconstruct(reset=True,
+    constraints=...) and/or the models' public `constraints` setters."""
+    obj = _subset(
+        draw,
+        [
+            ("positivity", False),
+            ("fix_potential_baseline", True),
+            ("apply_fov_mask", True),
+            ("gaussian_sigma", 1.0),
+            ("tv_weight_xy", 0.1),
+            ("tv_weight_z", 0.1),
+            ("q_lowpass", 0.6),
+        ],
+        always=[("identical_slices", True)] if draw(st.integers(0, 3)) else [],
+    )
+    probe = _subset(draw, [("orthogonalize_probe", False), ("center_probe", True), ("tv_weight", 0.1)])
+    dset = _subset(draw, [("descan_shifts_constant", True), ("center_scan_positions", True), ("descan_tv_weight", 0.1)])
+    return {
+        "S": draw(st.sampled_from([1, 2, 3])),
+        "obj_type": draw(st.sampled_from(["complex", "pure_phase", "potential"])),
+        "constraints": {"object": obj, "probe": probe, "dataset": dset},
+        "via": draw(st.sampled_from(["reconstruct", "setters", "both"])),
+        "optimize": draw(st.sampled_from([[], ["object"], ["object", "probe"], ["object", "probe", "dataset"]])),
+        "second_reset": draw(st.booleans()),
+    }
+
+
+@st.composite
+def large_cases(draw, base=1000):
+    """Large scans: J just above a multiple of the library's 1000-position chunk size, tiny ROI, one slice,
+    one mode, scan steps that are multiples of 1/8 px with a power-of-two pixel size (float32-exact positions;
+    exact half-pixel ties occur and are handled like everywhere else).  Only the truth loss is evaluated."""
+    g0 = draw(st.integers(21, 48))
+    target = base + draw(st.integers(1, 40))
+    g1 = -(-target // g0)
+    if draw(st.booleans()):
+        g0, g1 = g1, g0
+    J = g0 * g1
+    R, C = draw(st.sampled_from([6, 7, 8])), draw(st.sampled_from([6, 7, 8]))
+    steps = [1.125, 1.25, 1.375, 1.5, 1.625, 1.75, 1.875, 2.0]
+    return {
+        "large": True,
+        "roi": [R, C],
+        "gpts": [g0, g1],
+        "sampling": [draw(st.sampled_from([0.25, 0.5])), draw(st.sampled_from([0.25, 0.5]))],
+        "step_px": [draw(st.sampled_from(steps)), draw(st.sampled_from(steps))],
+        "step_kind": ["eighths", "eighths"],
+        "energy": draw(st.sampled_from([80e3, 200e3])),
+        "S": 1,
+        "thick": [],
+        "M": 1,
+        "mode_order": [0],
+        "obj_type": draw(st.sampled_from(["complex", "pure_phase", "potential"])),
+        "obj": {"strength": draw(_fl(0.8, 3.1, 3)), "smooth": draw(st.booleans())},
+        "probe": {
+            "radius": draw(_fl(1.6, 2.5, 3)),
+            "soft": draw(_fl(0.3, 1.5, 3)),
+            "defocus": draw(_fl(-6.0, 6.0, 3)),
+            "astig": draw(_fl(-2.0, 2.0, 3)),
+            "astig_angle": draw(_fl(0.0, 3.1416, 3)),
+            "dose": draw(st.sampled_from([1e2, 1e3, 1e4, 1e5])) * draw(_fl(1.0, 9.9, 2)),
+            "weights": [1.0, 0.3, 0.1],
+        },
+        "pad": [draw(st.integers(2, 6)), draw(st.integers(2, 6))],
+        "descan": draw(st.sampled_from(["A", "B_constant"])),
+        "loss": draw(st.sampled_from(LOSSES)),
+        "batch": draw(st.sampled_from([J, -(-J // 2), -(-J // 3)])),
+        "pert": {"obj_sigma": 0.3, "probe_defocus": 2.0},
+        "seed": draw(SEEDS),
+    }
+
+
 @st.composite
 def cases(draw, even_only=False):
     R, C = draw(_roi_side()), draw(_roi_side())
@@ -191,7 +281,8 @@ def cases(draw, even_only=False):
             "calls": [
                 {"loss": draw(st.sampled_from(LOSSES)), "reset": draw(st.sampled_from([False, False, True])), "iters": draw(st.integers(1, 2))}
                 for _ in range(ncalls)
-            ]
+            ],
+            "interference": draw(_interference()),
         }
     max_batches = 4 if recon else 12  # bounds the run time, keeps ragged partitions
     if -(-J // batch) > max_batches:
@@ -363,6 +454,39 @@ def _check_recon(ctx, case, pt, obj, probe_installed, tol_of, where):
         raise core.HarnessError("unexpected object/probe optimiser")
 
 
+def _interfere(ctx, case, spec):
+    """Unrelated activity: a tiny random-data reconstruction with drawn non-default constraints.  Nothing is
+    judged here (an exception inside it is counted, not reported: the activity itself is outside the claim)."""
+    seed = int(case["seed"]) % (2**31)
+    rng = np.random.default_rng([seed, 505])
+    S = int(spec["S"])
+    tiny = {
+        "roi": [6, 6], "gpts": [3, 3], "sampling": [0.4, 0.4], "step_px": [2.3, 2.3], "energy": 80e3, "S": S,
+        "thick": [10.0] * (S - 1), "M": 2, "obj_type": spec["obj_type"], "pad": [4, 4], "descan": "B_constant", "seed": seed,
+    }
+    cons = {k: dict(v) for k, v in spec["constraints"].items() if v}
+    _gc_fast()
+    try:
+        pdset = B.make_dataset(tiny, rng.random((9, 6, 6)) + 0.1)
+        pt = B.make_ptycho(tiny, pdset, None)
+        opt = {k: {"type": "adam", "lr": 1e-3} for k in spec["optimize"]}
+        kw = {"optimizer_params": opt} if opt else {}
+        via = spec["via"]
+        pt.reconstruct(num_iters=1, reset=True, constraints=cons if via in ("reconstruct", "both") else {}, batch_size=5, **kw)
+        if via in ("setters", "both"):
+            for key, model in (("object", pt.obj_model), ("probe", pt.probe_model), ("dataset", pt.dset)):
+                if cons.get(key):
+                    model.constraints = dict(cons[key])
+            pt.reconstruct(num_iters=1, reset=False, batch_size=9)
+        if spec["second_reset"]:
+            pt.reconstruct(num_iters=1, reset=True, constraints=cons, batch_size=9)
+        ctx.count("interference_ran")
+    except core.HarnessError:
+        raise
+    except Exception as e:  # noqa: BLE001 - unrelated activity, see docstring
+        ctx.count("interference_raised:%s" % type(e).__name__)
+
+
 def check(ctx, case):
     R, C = case["roi"]
     g0, g1 = case["gpts"]
@@ -395,7 +519,7 @@ def check(ctx, case):
     has_tie = bool(np.any(ties))
 
     classes = [
-        "kind:" + ("reconstruct_history" if recon else "forward"),
+        "kind:" + ("large_scan" if case.get("large") else ("reconstruct_history" if recon else "forward")),
         "S%d" % S,
         "M%d" % M,
         "type:" + case["obj_type"],
@@ -406,6 +530,8 @@ def check(ctx, case):
         "batches:%s" % ("1" if case["batch"] >= J else ("ragged" if J % case["batch"] else "equal")),
         "pad:" + ("requested>0" if min(case["pad"]) > 0 else "requested_0_on_an_axis"),
     ]
+    if J > 1000:
+        classes.append("scan_points:%d001+" % ((J - 1) // 1000))
     if M >= 2:
         classes.append("modes:" + ("installed_strongest_first" if order == sorted(order) else "installed_out_of_order"))
     if has_tie:
@@ -427,7 +553,7 @@ def check(ctx, case):
         for i in range(1, len(fam)):
             if fam[i] != fam[i - 1]:
                 classes.append("history:loss_family_changes_" + ("after_reset" if recon["calls"][i]["reset"] else "on_continuation"))
-    nontrivial = bool(S >= 2 or M >= 2 or R != C or (fractional and padded) or recon)
+    nontrivial = bool(S >= 2 or M >= 2 or R != C or (fractional and padded) or recon or J > 1000)
 
     if np.any(near & ~exact):
         ctx.record(case, False, classes + ["skipped:near_half_pixel_position"])
@@ -500,6 +626,11 @@ def check(ctx, case):
                 "%s at the ground truth is %.3e (tolerance %.3e; %s); library prediction differs from the reference "
                 "data by %.2e of the peak intensity" % (lt, L0, tol, w, rel)
             )
+            if J > 1000:
+                # which scan points are off tells the story for chunked patch-index construction
+                bad = np.nonzero(np.abs(pred0 - meas).max(axis=(1, 2)) > 1e-3 * meas.max())[0]
+                if bad.size:
+                    first_failure += "; %d of %d patterns are mispredicted, scan indices %d..%d" % (bad.size, J, bad.min(), bad.max())
     if chosen is None:
         if has_tie:
             first_failure += " [no consistent tie rule (%s) reproduces the data either]" % "/".join(rules)
@@ -513,6 +644,9 @@ def check(ctx, case):
             _fail(case, "%s of batch %s at the ground truth is %.3e (tolerance %.3e; %s)" % (lt, b.tolist(), Lb, tol, where))
     _stat("|lib mean intensity - ref| / ref", abs(lib_imean - imean) / imean)
 
+    if case.get("large"):
+        return  # large scans: truth loss only (full scan and batches)
+
     # -- 4. history kind: the same bound through the public reconstruct() --------------------------------
     if recon:
         with ctx.sut(case, "dataset preprocessing / Ptychography.from_models / preprocess"):
@@ -521,6 +655,23 @@ def check(ctx, case):
             pt2.probe_model.initial_probe = np.asarray(probe_inst, dtype=np.complex128)  # reset=True returns to it
             B.install_probe(pt2, probe_inst)
         _check_recon(ctx, case, pt2, obj, probe_inst, lambda t: truth_tol(t, J, npix, imean, peak_ratio, phi), where)
+        # -- 4b. the same problem, built from scratch after unrelated activity in this process, must behave as before
+        if recon.get("interference"):
+            _interfere(ctx, case, recon["interference"])
+            with ctx.sut(case, "dataset preprocessing / Ptychography.from_models / preprocess (second build)"):
+                pdset3 = B.make_dataset(case, I_true)
+                pt3 = B.make_ptycho(case, pdset3, obj)
+                B.configure(case, pt3, lt)
+                B.install_probe(pt3, probe_inst)
+            L3, _b, _g1, _g2, _pr = _eval(ctx, case, pt3, [full], lt, J, False)
+            _stat("truth loss after interference / tol [%s]" % lt, L3 / tol, case)
+            if L3 > tol:
+                _fail(
+                    case,
+                    "%s at the ground truth is %.3e (tolerance %.3e) for a problem built from scratch after an unrelated "
+                    "reconstruction with constraints %s (given via %s) ran in the same process; the identical build gave %.3e "
+                    "before (%s)" % (lt, L3, tol, recon["interference"]["constraints"], recon["interference"]["via"], L0, where),
+                )
         return
 
     # -- 5. forward kind: perturbed object, perturbed probe --------------------------------------------
@@ -580,11 +731,16 @@ def check(ctx, case):
 
 
 def search(ctx):
-    # quick: 4 workers x 280 cases (~45-100 s wall depending on the load of the shared machine, 0.1-0.3 s per case);
+    # quick: 4 workers x (280 cases + 2 large scans) (~45-100 s wall depending on the load of the shared machine,
+    # 0.1-0.3 s per case, 0.5-1 s per large scan);
     # thorough: 16 workers x 3000.  No shrink phase: a failing case is already a small JSON description.
     odd_open = _open(ctx, KEY_ODD)
     n = ctx.n(280, 3000)
     core.run_given(ctx, "c02", cases(even_only=False), lambda c: check(ctx, c), n, shrink=False)
+    # large-scan stratum: J just above 1000 (quick: 2 per worker; thorough: 12 per worker + 6 just above 2000)
+    core.run_given(ctx, "c02-large", large_cases(1000), lambda c: check(ctx, c), 2 if ctx.tier == "quick" else 12, shrink=False)
+    if ctx.thorough:
+        core.run_given(ctx, "c02-large2", large_cases(2000), lambda c: check(ctx, c), 6, shrink=False)
     if odd_open:
         ctx.extra["note"] = "odd ROI with no_shift skipped (open finding %s)" % KEY_ODD
     for k, v in STATS.items():
